@@ -25,22 +25,24 @@ Definition hist_ok (h : list event) : Prop :=
                      forall e', In e' (h1 ++ h2) -> completion_of k e' = false) /\
   (* a returned value is the body of a response frame that carried this call's own id and arrived before *)
   (forall h1 h2 k b, h = h1 ++ ERet k b :: h2 -> In (EResp k b) h1) /\
-  (* a call raises (or close() is a no-op) only after the connection was lost / closed / the server failed *)
-  (forall h1 h2 k e, h = h1 ++ ERaise k e :: h2 -> In ELoss h1) /\
-  (forall h1 h2 k, h = h1 ++ ENoop k :: h2 -> In ELoss h1).
+  (* a call raises (or close() is a no-op) only after the connection was lost / closed / the server failed -- or while
+     no connection has been established yet *)
+  (forall h1 h2 k e, h = h1 ++ ERaise k e :: h2 -> In ELoss h1 \/ ~ In EConnected h1) /\
+  (forall h1 h2 k, h = h1 ++ ENoop k :: h2 -> In ELoss h1 \/ ~ In EConnected h1).
 
 Inductive mstat := MIdle | MCalled | MAnswered (b : body) | MDone.
-Record mon := mkMon { m_st : list mstat; m_lost : bool; m_bad : bool }.
+Record mon := mkMon { m_st : list mstat; m_lost : bool; m_conn : bool; m_bad : bool }.
 
-Definition mupd (k : nat) (v : mstat) (m : mon) : mon := mkMon (upd k (fun _ => v) (m_st m)) (m_lost m) (m_bad m).
-Definition mbad (m : mon) : mon := mkMon (m_st m) (m_lost m) true.
+Definition mupd (k : nat) (v : mstat) (m : mon) : mon := mkMon (upd k (fun _ => v) (m_st m)) (m_lost m) (m_conn m) (m_bad m).
+Definition mbad (m : mon) : mon := mkMon (m_st m) (m_lost m) (m_conn m) true.
 
 Definition mon_step (m : mon) (e : event) : mon :=
   match e with
   | ECall k => match nth_error (m_st m) k with Some MIdle => mupd k MCalled m | _ => mbad m end
   | ESent _ => m
   | EResp k b => match nth_error (m_st m) k with Some MCalled => mupd k (MAnswered b) m | _ => m end
-  | ELoss => mkMon (m_st m) true (m_bad m)
+  | ELoss => mkMon (m_st m) true (m_conn m) (m_bad m)
+  | EConnected => mkMon (m_st m) (m_lost m) true (m_bad m)
   | ERet k b =>
       match nth_error (m_st m) k with
       | Some (MAnswered b') => if body_eqb b b' then mupd k MDone m else mbad m
@@ -48,12 +50,12 @@ Definition mon_step (m : mon) (e : event) : mon :=
       end
   | ERaise k _ | ENoop k =>
       match nth_error (m_st m) k with
-      | Some MCalled => if m_lost m then mupd k MDone m else mbad m
+      | Some MCalled => if m_lost m || negb (m_conn m) then mupd k MDone m else mbad m
       | _ => mbad m
       end
   end.
 
-Definition mon_init (n : nat) : mon := mkMon (repeat MIdle n) false false.
+Definition mon_init (n : nat) : mon := mkMon (repeat MIdle n) false false false.
 Definition mon_run (m : mon) (h : list event) : mon := fold_left mon_step h m.
 Definition settled (st : mstat) : bool := match st with MIdle | MDone => true | _ => false end.
 Definition mon_accept (m : mon) : bool := negb (m_bad m) && forallb settled (m_st m).
